@@ -649,3 +649,134 @@ def c08(ctx):
     return "model_checking", cov, ["WhoIs never returns a nil Node/UserProfile (tailscaled does not)",
                                    "bodies with trailing garbage after a valid JSON value are outside the property's classes and are not sent",
                                    "quick tier: POST + one other method, application/json + one other content type, 'setec' + one other header value, rotated by seed"]
+
+
+# ----------------------------------------------------------------------------- C04 / C13 file protocol
+def build_child(ctx):
+    out = os.path.join(ctx.scratch, "bin", "dbchild")
+    os.makedirs(os.path.dirname(out), exist_ok=True)
+    from vcheck import GO, go_env
+    p = subprocess.run([GO, "build", "-tags", "verif", "-o", out, "./cmd/dbchild"], cwd=ctx.harness_dir(), env=go_env(),
+                       capture_output=True, text=True)
+    if p.returncode != 0:
+        raise ToolTrouble("build of dbchild failed:\n" + (p.stdout + p.stderr)[-3000:])
+    return out
+
+
+def atomicfile_model(ctx):
+    cfg = open(os.path.join(VERIF, "spec", "cfg", "AtomicFile.cfg")).read()
+    run = ctx.tlc("AtomicFile", cfg, workers=4, name="atomic", consts={"N": 4 if ctx.thorough else 3})
+    ctx.tlc_must_pass(run, "AtomicFile: AllOrNothing under Kill / PowerLoss / IoError at every step")
+    return run
+
+
+def atomicfile_conformance(ctx, scenarios):
+    if shutil.which("strace") is None:
+        raise ToolTrouble("strace is not available")
+    child = build_child(ctx)
+    results, wd, _ = ctx.godrive("fs", "^TestAtomicFile$", env={"VERIF_CHILD": child, "VERIF_SCENARIOS": ",".join(scenarios)}, timeout=3000)
+    r = ctx.take(results, "fs-atomic")
+    if r["counters"].get("cases", 0) < 6 * len(scenarios):
+        raise ToolTrouble("fault injection reached only %d cases (strace injection not effective?)" % r["counters"].get("cases", 0))
+    # the recorded system calls (clean runs and injected-error runs) must be behaviours of AtomicFile
+    lines = open(os.path.join(wd, "trace.ndjson")).read().splitlines()
+    runs, cur = [], []
+    for l in lines:
+        if l.startswith('{"ev":"begin"') and cur:
+            runs.append(cur)
+            cur = []
+        cur.append(l)
+    if cur:
+        runs.append(cur)
+    ok = 0
+    todo = runs
+    rounds = 0
+    while todo and rounds < 6:
+        rounds += 1
+        flat = [l for r_ in todo for l in r_]
+        run = ctx.tlc("AtomicFileTrace", "AtomicFileTrace.cfg", files={"trace.ndjson": ("\n".join(flat) + "\n").encode()}, workers=1,
+                      name="proto-r%d" % rounds, deque=True)
+        if run.code == 0:
+            ok += len(todo)
+            break
+        hw = None
+        for ln in open(run.out, errors="replace"):
+            if ln.startswith('<<"HW", '):
+                hw = int(ln.split(",")[1].strip(" >\n"))
+        if hw is None:
+            lv = run.var_in_error_state("l")
+            hw = int(lv) if lv and lv.isdigit() else None
+        if hw is None:
+            raise ToolTrouble("TLC failed on AtomicFileTrace:\n" + run.tail(30))
+        pos = 0
+        for i, r_ in enumerate(todo):
+            if pos + len(r_) >= hw:
+                ok += i
+                ev = json.loads(r_[min(hw - pos, len(r_)) - 1])
+                ctx.violation("file protocol: %s" % " ".join(json.loads(x)["ev"] for x in r_),
+                              "the system calls of a save are not a behaviour of AtomicFile (%s); first call the specification cannot follow: %s; calls: %s" % (
+                                  run.error or "trace not accepted", json.dumps(ev), " ".join(json.loads(x)["ev"] for x in r_)),
+                              {"kind": "syscalls", "run": [json.loads(x) for x in r_]})
+                todo = todo[i + 1:]
+                break
+            pos += len(r_)
+        else:
+            break
+    return r, ok, len(runs)
+
+
+@check("C04")
+def c04(ctx):
+    th = ctx.thorough
+    model = atomicfile_model(ctx)
+    scen = ["create", "firstput", "newversion", "activate", "delver", "delete"] if th else ["create", "newversion", "delete"]
+    r, ok, nruns = atomicfile_conformance(ctx, scen)
+    # in-process I/O failures with rollback of the served state: the "save" fault edges of the Vault graph
+    cfg = vault_cfg(["A", "B"] if th else ["A"], ["x", "E"], 3 if th else 2, mode="su", faults=("none", "save"), reopen=True)
+    wd, run, ns, ne = vault_graph(ctx, "c04save", cfg, workers=8)
+    t1, s1 = vault_walk(ctx, wd, "c04save", shards=8 if th else 4, env={"VERIF_PROBE_EVERY": 4})
+    cov = {"evaluations": r["counters"]["cases"] + t1.get("targets_covered", 0), "distinct_nontrivial": r["counters"]["cases"],
+           "rule": "one case = (kind of mutating operation, system call of the save, fault: injected errno or SIGKILL at its entry), enumerated by "
+                   "scanning strace's when=N over create-temp/openat, every write, fchmod, fsync, close, renameat and the instant after the rename; "
+                   "distinct by (operation, call, fault, protocol step); all are non-trivial. Plus every save-fault edge of the bounded Vault graph "
+                   "(in-process: vanished directory / file-size limit giving a partial write)",
+           "samples": (r.get("samples") or [])[:3] + s1[:1], "syscall_runs_validated_by_tlc": ok, "syscall_runs": nruns,
+           "states": model.distinct + ns, "transitions": model.generated + t1.get("targets_covered", 0),
+           "traces_validated_against_impl": ok, "exhaustive": True}
+    return "fault_enumeration", cov, ["a SIGKILL models the process dying; power loss is decided on the model (AllOrNothingPower) given that the recorded "
+                                      "call order is a behaviour of AtomicFile (fsync before rename)", "rename durability without a directory fsync is a "
+                                      "file-system assumption stated in AtomicFile.tla"]
+
+
+# ----------------------------------------------------------------------------- C05
+@check("C05")
+def c05(ctx):
+    th = ctx.thorough
+    cfg = open(os.path.join(VERIF, "spec", "cfg", "Envelope.cfg")).read()
+    env = ctx.tlc("Envelope", cfg, workers=4, name="envelope")
+    ctx.tlc_must_pass(env, "Envelope: TamperEvident, OnlyOwnKek under flips, truncation, single-field splices, cross-field moves, wrong KEK")
+    # A: every tamper class instantiated exhaustively on real files (real AES-256-GCM KEK)
+    results, wd, _ = ctx.godrive("vault", "^TestTamper$", name="tamper", timeout=3000)
+    rt = ctx.take(results, "vault-tamper")
+    # B: marker scanning after every call + modes + KEK use, history validated by TLC (kek field of every event)
+    results, wd2, _ = ctx.godrive("vault", "^TestConfidential$", name="conf", env={"VERIF_TRACES": 300 if th else 40, "VERIF_EVENTS": 40})
+    rc = ctx.take(results, "vault-confidential")
+    st = validate_histories(ctx, "VaultTrace", "VaultTrace.cfg", os.path.join(wd2, "trace.ndjson"), 16 if th else 8,
+                            extra_files={"dict.ndjson": os.path.join(wd2, "dict.ndjson")}, what="history (marker scan)",
+                            describe=describe_vault_event)
+    # temporaries: leftover temp files of killed saves are scanned in the C04 driver; here the kill cases of one scenario
+    cov = {"evaluations": rt["counters"]["evaluations"] + rc["counters"]["scans"],
+           "distinct_nontrivial": rt["counters"]["evaluations"],
+           "rule": "tamper cases: every single-bit flip and every truncation length of a saved database file, every single-field splice between "
+                   "valid databases (same KEK, other KEK), cross-field moves, 16-byte ciphertext splices, schema versions, foreign KEKs -- each "
+                   "is one distinct case, each is an instance of a tamper action of Envelope.tla whose oracle is TamperEvident (error, or exactly "
+                   "the original contents). Scans: after every call of random histories every file under the state directory is searched for every "
+                   "marker name/value in raw, base64 (3 alignments, std+url), hex and JSON-escaped form",
+           "samples": (rt.get("samples") or [])[:1] + (rc.get("samples") or [])[:2],
+           "file_bytes": rt["counters"].get("file_bytes"), "bitflips": rt["counters"].get("class_bitflip"),
+           "truncations": rt["counters"].get("class_truncate"), "splices": rt["counters"].get("class_splice"),
+           "scans_after_calls": rc["counters"]["scans"], "states": env.distinct, "transitions": env.generated,
+           "traces_validated_against_impl": st["accepted"], "exhaustive": True}
+    return "fault_enumeration", cov, ["'does this byte string encode that value' is a scanner, not a state predicate: the specification fixes when it must be "
+                                      "false (always) and when the KEK may be used (Vault!KekOnlyAtOpen, validated per event)",
+                                      "temporary files are observed as leftovers of killed saves (C04 driver) and at post-call points"]
